@@ -367,5 +367,6 @@ func TestCheck(t *testing.T) {
 		vcommon.S("mutate-then-read", 9600, 1600000, genSeq(), checkSeq),
 		vcommon.E("source-matrix", enumMatrix, checkSource),
 		vcommon.E("readers-matrix", enumReaderMatrix, checkReaders),
+		vcommon.E("near-valid-strings", enumNearValid, checkNearValid),
 	)
 }
